@@ -263,8 +263,8 @@ func importName(f *ast.File, path string) string {
 	return ""
 }
 
-var timeFuncs = map[string]string{"Now": "Now", "Since": "Since", "Until": "Until", "Sleep": "Sleep"}
-var timeUnseamed = map[string]bool{"After": true, "AfterFunc": true, "NewTimer": true, "NewTicker": true, "Tick": true}
+var timeFuncs = map[string]string{"Now": "Now", "Since": "Since", "Until": "Until", "Sleep": "Sleep", "After": "After"}
+var timeUnseamed = map[string]bool{"AfterFunc": true, "NewTimer": true, "NewTicker": true, "Tick": true}
 var randFuncs = map[string]string{
 	"Int": "RandInt", "Intn": "RandIntn", "Int31": "RandInt31", "Int31n": "RandInt31n", "Int63": "RandInt63",
 	"Int63n": "RandInt63n", "Uint32": "RandUint32", "Uint64": "RandUint64", "Float64": "RandFloat64",
@@ -329,7 +329,8 @@ func (in *instrumenter) rewriteFile(p *pkgInfo, f *ast.File, name string, write 
 	// receives in `v, ok := <-ch` context, and channel operations that are the
 	// communication of a select case (left real; select is not virtualised)
 	commaOK := map[*ast.UnaryExpr]bool{}
-	inSelect := map[ast.Node]bool{}
+	inSelect := map[ast.Node]int{}
+	clauseIdx := map[*ast.CommClause]int{}
 	unparen := func(e ast.Expr) ast.Expr {
 		for {
 			p, ok := e.(*ast.ParenExpr)
@@ -353,23 +354,34 @@ func (in *instrumenter) rewriteFile(p *pkgInfo, f *ast.File, name string, write 
 					commaOK[u] = true
 				}
 			}
-		case *ast.CommClause:
-			if x.Comm != nil {
-				ast.Inspect(x.Comm, func(m ast.Node) bool {
-					switch y := m.(type) {
-					case *ast.SendStmt:
-						inSelect[y] = true
-					case *ast.UnaryExpr:
-						if y.Op == token.ARROW {
-							inSelect[y] = true
+		case *ast.SelectStmt:
+			idx := 0
+			for _, st := range x.Body.List {
+				cc, ok := st.(*ast.CommClause)
+				if !ok || cc.Comm == nil {
+					continue
+				}
+				clauseIdx[cc] = idx
+				switch c := cc.Comm.(type) {
+				case *ast.SendStmt:
+					inSelect[c] = idx
+				case *ast.ExprStmt:
+					if u, ok := unparen(c.X).(*ast.UnaryExpr); ok && u.Op == token.ARROW {
+						inSelect[u] = idx
+					}
+				case *ast.AssignStmt:
+					if len(c.Rhs) == 1 {
+						if u, ok := unparen(c.Rhs[0]).(*ast.UnaryExpr); ok && u.Op == token.ARROW {
+							inSelect[u] = idx
 						}
 					}
-					return true
-				})
+				}
+				idx++
 			}
 		}
 		return true
 	})
+	flat := func(b []byte) string { return strings.ReplaceAll(string(b), "\n", " ") }
 
 	var funcStack []string
 	curFunc := func() string {
@@ -423,13 +435,53 @@ func (in *instrumenter) rewriteFile(p *pkgInfo, f *ast.File, name string, write 
 				stmtList(x.List)
 			case *ast.CaseClause:
 				stmtList(x.Body)
+			case *ast.SelectStmt:
+				// select { ... }  ->  switch zzsel := simrt.SelectReady(hasDefault, cases...); zzsel.I { ... }
+				hasDefault := false
+				var cs []string
+				for _, st := range x.Body.List {
+					cc, ok := st.(*ast.CommClause)
+					if !ok {
+						continue
+					}
+					if cc.Comm == nil {
+						hasDefault = true
+						continue
+					}
+					switch c := cc.Comm.(type) {
+					case *ast.SendStmt:
+						cs = append(cs, rt+".CanSend("+flat(src[off(c.Chan.Pos()):off(c.Chan.End())])+", "+flat(src[off(c.Value.Pos()):off(c.Value.End())])+")")
+					case *ast.ExprStmt:
+						if u, ok := unparen(c.X).(*ast.UnaryExpr); ok && u.Op == token.ARROW {
+							cs = append(cs, rt+".CanRecv("+flat(src[off(u.X.Pos()):off(u.X.End())])+")")
+						}
+					case *ast.AssignStmt:
+						if len(c.Rhs) == 1 {
+							if u, ok := unparen(c.Rhs[0]).(*ast.UnaryExpr); ok && u.Op == token.ARROW {
+								cs = append(cs, rt+".CanRecv("+flat(src[off(u.X.Pos()):off(u.X.End())])+")")
+							}
+						}
+					}
+				}
+				args := fmt.Sprintf("%v", hasDefault)
+				if len(cs) > 0 {
+					args += ", " + strings.Join(cs, ", ")
+				}
+				add(off(x.Select), len("select"), "switch zzsel := "+rt+".SelectReady("+args+"); zzsel.I")
+				in.res.Seams["select"]++
 			case *ast.CommClause:
 				stmtList(x.Body)
 				if x.Comm != nil {
-					in.noteUnseamed(relFile, x.Pos(), "select communication clause (select is not virtualised; a select that must wait ends in the watchdog)")
+					idx := clauseIdx[x]
+					add(off(x.Comm.Pos()), 0, fmt.Sprintf("%d: ", idx))
+					add(off(x.Colon), 1, ";")
 				}
 			case *ast.SendStmt:
-				if !inSelect[x] {
+				if idx, sel := inSelect[x]; sel {
+					add(off(x.Chan.Pos()), 0, fmt.Sprintf("%s.SelSend(zzsel, %d, ", rt, idx))
+					add(off(x.Arrow), 2, ",")
+					add(off(x.Value.End()), 0, ")")
+				} else {
 					// ch <- v   ->   simrt.Send(ch, v)
 					add(off(x.Chan.Pos()), 0, rt+".Send(")
 					add(off(x.Arrow), 2, ",")
@@ -437,14 +489,23 @@ func (in *instrumenter) rewriteFile(p *pkgInfo, f *ast.File, name string, write 
 					in.res.Seams["chan_send"]++
 				}
 			case *ast.UnaryExpr:
-				if x.Op == token.ARROW && !inSelect[x] {
-					fn := ".Recv("
-					if commaOK[x] {
-						fn = ".Recv2("
+				if x.Op == token.ARROW {
+					if idx, sel := inSelect[x]; sel {
+						fn := "SelRecv"
+						if commaOK[x] {
+							fn = "SelRecv2"
+						}
+						add(off(x.OpPos), 2, fmt.Sprintf("%s.%s(zzsel, %d, ", rt, fn, idx))
+						add(off(x.X.End()), 0, ")")
+					} else {
+						fn := ".Recv("
+						if commaOK[x] {
+							fn = ".Recv2("
+						}
+						add(off(x.OpPos), 2, rt+fn)
+						add(off(x.X.End()), 0, ")")
+						in.res.Seams["chan_recv"]++
 					}
-					add(off(x.OpPos), 2, rt+fn)
-					add(off(x.X.End()), 0, ")")
-					in.res.Seams["chan_recv"]++
 				}
 			case *ast.CallExpr:
 				if id, ok := x.Fun.(*ast.Ident); ok && id.Name == "close" && len(x.Args) == 1 {
@@ -524,6 +585,10 @@ func (in *instrumenter) rewriteFile(p *pkgInfo, f *ast.File, name string, write 
 		if edits[i].off != edits[j].off {
 			return edits[i].off < edits[j].off
 		}
+		// at one offset, pure insertions go before a replacement that starts there
+		if (edits[i].del > 0) != (edits[j].del > 0) {
+			return edits[i].del == 0
+		}
 		return edits[i].seq < edits[j].seq
 	})
 	var out []byte
@@ -572,20 +637,34 @@ func (in *instrumenter) rewriteGo(g *ast.GoStmt, off func(token.Pos) int, add fu
 		in.res.Seams["go_stmt"]++
 		return true
 	}
-	// general case: evaluate function value and arguments now, call later
-	// go f(a, b...) -> { zzf, zz0, zz1 := f, a, b; simrt.Go(func(){ zzf(zz0, zz1...) }) }
+	flat := func(b []byte) string { return strings.ReplaceAll(string(b), "\n", " ") }
 	var lhs, rhs, args []string
-	lhs = append(lhs, "zzf")
-	rhs = append(rhs, string(src[off(call.Fun.Pos()):off(call.Fun.End())]))
 	for i, a := range call.Args {
 		n := fmt.Sprintf("zz%d", i)
 		lhs = append(lhs, n)
-		rhs = append(rhs, string(src[off(a.Pos()):off(a.End())]))
+		rhs = append(rhs, flat(src[off(a.Pos()):off(a.End())]))
 		if i == len(call.Args)-1 && call.Ellipsis.IsValid() {
 			n += "..."
 		}
 		args = append(args, n)
 	}
+	if fl, ok := call.Fun.(*ast.FuncLit); ok {
+		// go func(p T){...}(a, b)  ->
+		//   simrt.Go(func() func() { zz0, zz1 := a, b; return func() { func(p T){...}(zz0, zz1) } }())
+		// The literal stays where it is (and keeps its own yields and seams);
+		// arguments are evaluated now, the call happens in the new task.
+		add(off(g.Go), 2, fmt.Sprintf("%s.Go(func() func() { %s := %s; return func() {", rt, strings.Join(lhs, ", "), strings.Join(rhs, ", ")))
+		tailOrig := src[off(fl.End()):off(call.End())]
+		repl := "(" + strings.Join(args, ", ") + ") } }())" + strings.Repeat("\n", strings.Count(string(tailOrig), "\n"))
+		add(off(fl.End()), int(call.End()-fl.End()), repl)
+		in.res.Seams["go_stmt"]++
+		// descend into the literal only: the argument expressions were replaced
+		return true
+	}
+	// general case: evaluate function value and arguments now, call later
+	// go f(a, b...) -> { zzf, zz0, zz1 := f, a, b; simrt.Go(func(){ zzf(zz0, zz1...) }) }
+	lhs = append([]string{"zzf"}, lhs...)
+	rhs = append([]string{flat(src[off(call.Fun.Pos()):off(call.Fun.End())])}, rhs...)
 	text := fmt.Sprintf("{ %s := %s; %s.Go(func() { zzf(%s) }) }", strings.Join(lhs, ", "), strings.Join(rhs, ", "), rt, strings.Join(args, ", "))
 	// keep line count: pad with the newlines the original text contained
 	orig := src[off(g.Pos()):off(g.End())]
